@@ -501,7 +501,7 @@ def field_writes(P, adt, field):
     return out
 
 
-def definition_reads(P, fn, expr, adts):
+def definition_reads(P, fn, expr, adts, with_nodes=False):
     """{adt: {fields}} of the AST types `adts` that the value of `expr` (in `fn`) is computed from — through locals, through the
     bodies of the checker functions called, and *per field* through the checker's own structs: a value read from `s.f` depends on
     what is written into `s.f`, not on everything the function that built `s` has looked at (an index struct with one map per
@@ -509,6 +509,7 @@ def definition_reads(P, fn, expr, adts):
     reads = {}
     provs = {}
     seen = set()
+    visited = []
 
     def prov_of(g):
         if g.path not in provs:
@@ -525,6 +526,8 @@ def definition_reads(P, fn, expr, adts):
             if not isinstance(y, dict):
                 continue
             k = y.get("k")
+            if k is not None:
+                visited.append(y)
             if k == "Field":
                 a = norm(y.get("adt") or "")
                 if a in adts:
@@ -549,6 +552,8 @@ def definition_reads(P, fn, expr, adts):
                 if key != "s" and isinstance(v, (dict, list)):
                     st.append(v)
     visit(expr, fn)
+    if with_nodes:
+        return reads, visited
     return reads
 
 
@@ -568,7 +573,18 @@ def r04f(P, R):
                 continue
             g = guards[0][1]["cond"] if guards[0][0] == "if-then" else (guards[0][1].get("init") if guards[0][0] == "let-else" else guards[0][1]["scrut"])
             # names of definitions that the search deciding the report is computed from
-            reads = definition_reads(P, e, g, (OD, FD))
+            reads, seen_nodes = definition_reads(P, e, g, (OD, FD), with_nodes=True)
+            # "an earlier definition" is decided by the position in the list of definitions, not by comparing source positions:
+            # `Pos` orders by line and column only, and a document holds definitions imported from other files
+            by_pos = [y for y in seen_nodes if y.get("k") == "Binary" and y.get("op") in ("<", ">", "<=", ">=")
+                      and any(peel_pos(s) for s in (y["l"], y["r"]))]
+            if by_pos and pos_order_ignores_file(P):
+                R.violated("R04-f", "earlier-definition:" + variant, "the search that decides %s orders definitions by comparing their `Pos` (`%s`); Pos "
+                           "ordering looks at line and column only, and an operation document contains fragments imported from other files: two "
+                           "definitions of one name at the same line:column of different files are neither earlier than the other, so the "
+                           "duplicate is not reported" % (variant, by_pos[0].get("op")), loc=e0.loc())
+            else:
+                R.holds("R04-f", "earlier-definition:" + variant, "the search does not order definitions by source position")
             # the current definition's own name is read through its binding; what matters is that the search never consults the
             # *other* kind's name
             bad = "name" in reads.get(other, set())
@@ -578,6 +594,184 @@ def r04f(P, R):
                    "%s is raised by a search that also compares against the names of %s: `fragment User ...` followed by `query User ...` "
                    "is rejected although operations and fragments live in separate name spaces" % (variant, other.split("::")[-1]),
                    "the search that decides %s reads no definition name the rule can see" % variant, loc=e0.loc())
+    index_agreement(P, R, "R04-f", e, "check_operation_document")
+    uniqueness_scopes(P, R, "R04-f")
+
+
+def peel_pos(n):
+    t = (n.get("t") or "")
+    while t.startswith("&"):
+        t = t[1:].lstrip()
+    return norm(t) == A + "base::Pos"
+
+
+def pos_order_ignores_file(P):
+    """does the ordering of `Pos` leave out the file index?  (read off the body of its `Ord`/`PartialOrd` impl)"""
+    fns = [f for p, f in P.fns.items() if p.startswith("<" + A + "base::Pos as core::cmp::") and f.name in ("cmp", "partial_cmp") and not f.derived]
+    if not fns:
+        return False
+    reads = set()
+    for f in fns:
+        reads |= {x.get("field") for x in f.walk() if x.get("k") == "Field" and norm(x.get("adt") or "") == A + "base::Pos"}
+    return "file" not in reads
+
+
+LOSSY_SEQ = {"filter", "filter_map", "skip", "skip_while", "take", "take_while", "step_by", "dedup", "dedup_by", "dedup_by_key", "rev", "flat_map",
+             "flatten", "chain", "retain", "sort", "sort_by", "sort_by_key", "sort_unstable", "sort_unstable_by", "sort_unstable_by_key"}
+_SEQ_VIEW = {"iter", "iter_mut", "into_iter", "as_slice", "as_ref", "as_mut", "borrow", "to_vec", "clone", "cloned", "copied", "collect", "enumerate",
+             "by_ref", "as_deref"}
+
+
+def seq_place(n):
+    """(place, adaptors): the place expression a sequence expression views (`document.definitions`, a local) and the adaptors
+    applied on the way"""
+    ads = []
+    while True:
+        k = n.get("k")
+        if k == "MethodCall":
+            ads.append(n.get("method"))
+            n = n["recv"]
+        elif k in ("AddrOf", "DropTemps", "Use") or (k == "Unary" and n.get("op") == "Deref"):
+            n = n["e"]
+        elif k == "Call" and n.get("args") and (call_name(n) or "").endswith("into_iter"):
+            n = n["args"][0]
+        else:
+            break
+    path = []
+    m = n
+    while m.get("k") == "Field":
+        path.append(m.get("field"))
+        m = m["e"]
+        while m.get("k") in ("AddrOf", "DropTemps") or (m.get("k") == "Unary" and m.get("op") == "Deref"):
+            m = m["e"]
+    if m.get("k") == "Path" and "local" in m:
+        return (m["local"],) + tuple(reversed(path)), ads
+    return None, ads
+
+
+def index_agreement(P, R, rule, g, what):
+    """An index produced by enumerating one sequence positions an element of *that* sequence: using it to cut (`take`/`skip`/
+    `[..i]`) or index another sequence is only right if the other one is the same sequence.  VIOLATED when the other sequence
+    is a local built from the enumerated one through a selecting / re-ordering adaptor (positions differ); instances whose two
+    places are unrelated are UNDECIDED."""
+    pv = MProv(g)
+    n = 0
+    for x in g.walk():
+        # `for (i, x) in SEQ.enumerate()` and `SEQ.enumerate().adaptor(|(i, x)| ..)`
+        seq, pats = None, []
+        if x.get("k") == "Match" and x.get("src") == "ForLoopDesugar" and x["scrut"].get("k") == "Call" and x["scrut"].get("args"):
+            it = x["scrut"]["args"][0]
+            if it.get("k") == "MethodCall" and it.get("method") == "enumerate":
+                seq = it["recv"]
+                pats = [q for q in subnodes(x["arms"]) if q.get("k") == "Tuple" and len(q.get("ps", [])) == 2]
+        elif x.get("k") == "MethodCall" and x["recv"].get("k") == "MethodCall" and x["recv"].get("method") == "enumerate":
+            seq = x["recv"]["recv"]
+            pats = [p for a in x["args"] if a.get("k") == "Closure" for p in a.get("params", []) if p.get("k") == "Tuple" and len(p.get("ps", [])) == 2]
+        if seq is None or not pats or pats[0]["ps"][0].get("k") != "Binding":
+            continue
+        idx = pats[0]["ps"][0]["local"]
+        e_place, e_ads = seq_place(seq)
+        if e_place is None or set(e_ads) & LOSSY_SEQ:
+            continue
+        for y in g.walk():
+            other = None
+            if y.get("k") == "MethodCall" and y.get("method") in ("take", "skip", "nth", "split_at", "get") and y.get("args"):
+                a0 = y["args"][0]
+                while a0.get("k") in ("AddrOf", "DropTemps") or (a0.get("k") == "Unary" and a0.get("op") == "Deref"):
+                    a0 = a0["e"]
+                if a0.get("k") == "Path" and a0.get("local") == idx:
+                    other = y["recv"]
+            elif y.get("k") == "Index":
+                ix = [z for z in subnodes(y.get("idx") or y.get("i") or {}) if z.get("k") == "Path" and z.get("local") == idx] if isinstance(y.get("idx") or y.get("i"), dict) else []
+                if ix:
+                    other = y["e"]
+            if other is None:
+                continue
+            n += 1
+            o_place, o_ads = seq_place(other)
+            key = "index-agreement:%s#%d" % (what, n)
+            if o_place == e_place and not (set(o_ads) & LOSSY_SEQ):
+                R.holds(rule, key, "the index cuts the sequence it was counted on", loc=g.loc())
+                continue
+            verdict = None
+            if o_place is not None and len(o_place) == 1 and o_place != e_place:
+                # another local: how was it built?
+                for src, _ in pv.src.get(o_place[0], []):
+                    if src is None:
+                        continue
+                    s_place, s_ads = seq_place(src)
+                    if s_place == e_place and set(s_ads) & LOSSY_SEQ:
+                        verdict = sorted(set(s_ads) & LOSSY_SEQ)
+            if verdict:
+                R.violated(rule, key, "%s: an index counted by enumerating one sequence is used to cut another one that was built from it with `.%s(..)`: "
+                           "the two number their elements differently, so the cut reaches the wrong elements (a definition is compared with "
+                           "itself, or an earlier one is missed)" % (g.path, "/".join(verdict)), loc=g.loc())
+            else:
+                R.undecided(rule, key, "an index counted on one sequence cuts another; their relation is not one this rule reads", loc=g.loc())
+    return n
+
+
+# the scope within which each "already seen" name set must live (GraphQL spec: variable names are unique per operation 5.8.1,
+# non-repeatable directives per location 5.7.3): diagnostic -> parameter types of the functions that work on ONE such scope
+UNIQUENESS_SCOPE = {
+    "DuplicatedVariableName": ("operation", (A + "variable::VariablesDefinition", A + "operation::OperationDefinition")),
+    "RepeatedDirective": ("directive list", (A + "directive::Directive",)),
+}
+_SEEN_QUERY = {"contains", "insert", "get", "contains_key", "entry", "binary_search", "replace"}
+
+
+def uniqueness_scopes(P, R, rule):
+    """The collection of names consulted before a duplicate is reported must be created once per scope of the uniqueness rule:
+    inside a function that handles one such scope (or inside the loop over the scopes).  A collection created once per document
+    and handed down makes a name used in one operation a duplicate in the next."""
+    from c03 import checker_scope, call_sites
+    scope = [P.fns[p] for p in checker_scope(P) if P.fns[p].kind in ("Fn", "AssocFn")]
+    for variant, (what, per_scope_types) in sorted(UNIQUENESS_SCOPE.items()):
+        key = "scope:" + variant
+        found = None
+        for f in scope:
+            sites = [i for i, (x, _) in enumerate(f.nodes()) if x.get("k") == "Struct" and "rest" not in x and norm(x.get("variant", "")).endswith("::" + variant)]
+            for i in sites:
+                for ge in guard_exprs(f, i):
+                    for src_n in source_nodes(P, MProv(f), ge, depth=0):
+                        if src_n.get("k") == "MethodCall" and src_n.get("method") in _SEEN_QUERY:
+                            b = src_n["recv"]
+                            while b.get("k") in ("AddrOf", "DropTemps", "MethodCall") or (b.get("k") == "Unary" and b.get("op") == "Deref"):
+                                b = b["recv"] if b.get("k") == "MethodCall" else b["e"]
+                            if b.get("k") == "Path" and "local" in b:
+                                found = found or (f, b["local"])
+        if found is None:
+            continue
+        # follow the collection to where it is created
+        f, lid = found
+        verdict, why = None, "where the set of seen names is created was not found"
+        for _ in range(5):
+            pidx = [j for j, p in enumerate(f.params) if p.get("k") == "Binding" and p["local"] == lid]
+            if not pidx:
+                # a local of f
+                lets = [j for j, (x, _) in enumerate(f.nodes()) if x.get("k") == "Let" and x["pat"].get("k") == "Binding" and x["pat"]["local"] == lid]
+                per_scope = any(any(t in s for t in per_scope_types) for s in _sig(f))
+                in_loop = bool(lets) and any(cx[0] == "loop" for cx in enclosing_contexts(f, lets[0]))
+                whole_doc = any((A + "operation::OperationDocument") in s for s in _sig(f))
+                if per_scope or in_loop:
+                    verdict = True
+                elif whole_doc and lets:
+                    verdict, why = False, short(f.path)
+                break
+            sites = [(h, c) for h, _, c in call_sites(scope, f.path) if h.path != f.path]
+            if len(sites) != 1:
+                break
+            h, c = sites[0]
+            a = all_args(c)[pidx[0]] if pidx[0] < len(all_args(c)) else None
+            while a is not None and (a.get("k") in ("AddrOf", "DropTemps") or (a.get("k") == "Unary" and a.get("op") == "Deref")):
+                a = a["e"]
+            if a is None or a.get("k") != "Path" or "local" not in a:
+                break
+            f, lid = h, a["local"]
+        decide(R, rule, key, verdict, "the names already seen are collected per %s" % what,
+               "the collection consulted before %s is reported is created once per document in %s, outside the loop over the definitions, and "
+               "handed down to every %s: a name used in one %s is reported as a duplicate (or hides one) in the next" % (variant, why, what, what),
+               why)
 
 
 def _r03c(P, R):
